@@ -17,6 +17,7 @@ pub enum Effect {
     ClockRead { t: u64 },                    // Instant::now() returned t
     TimedWait,                               // an awaited operation ran under time::timeout (a bounded wait)
     TimedWaitUntil { t: u64 },               // an awaited operation ran under time::timeout_at with this absolute deadline
+    OwnTask,                                 // an operation was started in a task of its own (tokio::spawn): it is not cancelled when its spawner stops waiting
     DefaultSet { raw: Seq<u8> },              // PaddingFactory::update_default(raw) succeeded: raw is the process-wide default from now on
     Submit { frame: FrameS },                // ghost bookkeeping: a frame accepted by write_frame (its wire effect is write_frame's own postcondition)
 }
@@ -149,6 +150,13 @@ impl Writer {
             final(self).flushes == old(self).flushes,
             r is Ok ==> final(self).bytes == old(self).bytes + buf@ && final(self).lens == old(self).lens.push(buf@.len() as nat),
     { unimplemented!() }
+    // AsyncWriteExt::write: ONE write call - the transport may accept only a prefix of the buffer (that is why the code uses write_all)
+    #[verifier::external_body]
+    pub fn write(&mut self, buf: &[u8]) -> (r: io::Result<usize>)
+        ensures
+            final(self).flushes == old(self).flushes,
+            r is Ok ==> r->Ok_0 <= buf@.len() && final(self).bytes == old(self).bytes + buf@.subrange(0, r->Ok_0 as int) && final(self).lens == old(self).lens.push(r->Ok_0 as nat),
+    { unimplemented!() }
     #[verifier::external_body]
     pub fn flush(&mut self) -> (r: io::Result<()>)
         ensures final(self).bytes == old(self).bytes, final(self).lens == old(self).lens,
@@ -250,6 +258,13 @@ impl std::ops::Add<Duration> for Instant {
     type Output = Instant;
     #[verifier::external_body] fn add(self, d: Duration) -> (r: Instant) { unimplemented!() }
 }
+// tokio::spawn(async move { B }) whose JoinHandle is awaited (rule A): the value of B, or a JoinError if the task panicked
+pub struct JoinError { pub _p: () }
+impl std::fmt::Display for JoinError { #[verifier::external_body] fn fmt(&self, f: &mut std::fmt::Formatter<'_>) -> std::fmt::Result { unimplemented!() } }
+#[verifier::external_body]
+pub fn vx_spawned<T>(x: T, fx: &mut Ghost<Seq<Effect>>) -> (r: std::result::Result<T, JoinError>)
+    ensures r is Ok ==> r->Ok_0 == x, final(fx)@ == old(fx)@.push(Effect::OwnTask)
+{ unimplemented!() }
 pub mod time {
     use super::*;
     pub use super::Interval; pub use super::MissedTickBehavior;
